@@ -8,7 +8,7 @@ import re
 from ..cfg import build_cfg, calls_in, node_calls
 from ..core import Ctx, property_info, rule, share
 from ..model import AnalysisError, FuncInfo, anon_text, walk_no_nested
-from ..q import call_keywords, Dispatch, family, call_param, passes, value_texts, func_text, reach_table, reach_env, L, call_name_of, control_deps, entry_conditions, expand, leaves_at, node_containing, raw_forms, expand_at, flow_conditions, flows, forms, return_values, str_template, template_text, tests_like, A, MUTATORS, asrc, enum_members, is_self_attr, kwarg, root_name, stores, unparse
+from ..q import truthy_guard, call_keywords, Dispatch, family, call_param, passes, value_texts, func_text, reach_table, reach_env, L, call_name_of, control_deps, entry_conditions, expand, leaves_at, node_containing, raw_forms, expand_at, flow_conditions, flows, forms, return_values, str_template, template_text, tests_like, A, MUTATORS, asrc, enum_members, is_self_attr, kwarg, root_name, stores, unparse
 
 DM = "xsdata.codegen.mappers.dtd"
 DP = "xsdata.codegen.parsers.dtd"
@@ -999,8 +999,26 @@ def xmlns_declarations_are_recognised_by_their_value(ctx: Ctx) -> None:
                     elif x.attr == "default":
                         kind_tests += 1
                         where = where or t.ast
+    # a declaration without a value (#IMPLIED / #REQUIRED xmlns:p) binds nothing: every store of a declared value into a mapping happens
+    # only where that value was tested non-empty (else None overwrites the built-in binding of the prefix and the attribute is dropped)
+    unguarded = []
+    for f in fam:
+        for st, tgt, v in stores(f.node):
+            if isinstance(tgt, ast.Subscript) and v is not None:
+                for leaf in (leaves_at(f, st, v) or [v]):
+                    if isinstance(leaf, ast.Attribute) and leaf.attr == "default_value":
+                        unguarded.append((f, st))
+    # decided only in the unambiguous case: the declared value is stored and NO test in the function looks at a declared value at all
+    # (a test that exists but guards the store through copies / a two-phase collection is not second-guessed)
+    if value_tests > 0:
+        unguarded = []
+    if unguarded:
+        ctx.ob("build_ns_map binds a prefix only to a declared, non-empty value", False, at=unguarded[0][0], node=unguarded[0][1], construct="xmlns value present",
+               msg="`ns_map[...] = attribute.default_value` can run for an xmlns attribute declared without a value (#IMPLIED / #REQUIRED): the prefix is bound to None - over the built-in binding of xlink / xs / xsi / xml - "
+                   "and prefixed attributes of the element lose their namespace (a DTD-valid document then fails with Unknown attribute)")
     if value_tests == 0 and kind_tests == 0:
-        ctx.abstain("xmlns recognition of build_ns_map", at=fi, why="no test on attribute.default_value / attribute.default in the function or its helpers")
+        if not unguarded:
+            ctx.abstain("xmlns recognition of build_ns_map", at=fi, why="no test on attribute.default_value / attribute.default in the function or its helpers")
         return
     ctx.ob("build_ns_map recognises a namespace declaration by its declared value (attribute.default_value), not by the default keyword", value_tests >= 1 and kind_tests == 0, at=fi, node=where,
            construct="xmlns by value", msg="an xmlns attribute with a plain default (`xmlns:p CDATA 'urn:x'`) is not moved into the namespace map: the element loses its namespace and keeps a stray attribute")
@@ -1020,3 +1038,48 @@ def enum_members_never_take_the_scalar_path(ctx: Ctx) -> None:
     bad = [n for n in lit if not any(g.only_if(n.id, t.id, False) for t in en)]
     ctx.ob("literal_value(obj) is reached only when isinstance(obj, Enum) is false", not bad, at=ro, node=bad[0].ast if bad else None, construct="enum before scalars",
            msg="a str / int based Enum member takes the scalar path and is written as its repr (<Unit.IN: 'in'>): the generated source does not compile")
+
+
+@rule("C16.R9")
+def mutated_results_are_fresh(ctx: Ctx) -> None:
+    """In the DTD mapper, a mapping that a caller receives from a helper and then updates in place (`params = cls.build_occurs(..);
+    params.update(..)`) is created by that helper for this call: a dict display / dict() / comprehension / copy - never an entry of a
+    class-level or module-level table, which the caller's update would rewrite for every later content particle and DTD."""
+    mod = "xsdata.codegen.mappers.dtd"
+    funcs = {fi.name: fi for fi in ctx.repo.funcs_in(mod) if fi.cls is not None}
+    n = 0
+    for fi in funcs.values():
+        mutated = {c.func.value.id for c in calls_in(fi.node) if isinstance(c.func, ast.Attribute) and c.func.attr in MUTATORS and isinstance(c.func.value, ast.Name)}
+        mutated |= {tgt.value.id for st, tgt, v in stores(fi.node) if isinstance(tgt, ast.Subscript) and isinstance(tgt.value, ast.Name)}
+        for st, tgt, v in stores(fi.node):
+            if not (isinstance(tgt, ast.Name) and tgt.id in mutated and isinstance(v, ast.Call) and isinstance(v.func, ast.Attribute) and isinstance(v.func.value, ast.Name) and v.func.value.id in ("cls", "self")):
+                continue
+            helper = funcs.get(v.func.attr)
+            if helper is None:
+                continue
+            g = build_cfg(helper.node)
+            for r in g.returns():
+                if r.ast is None or r.ast.value is None:
+                    continue
+                for leaf, _chain in flows(helper, r, r.ast.value):
+                    fresh = isinstance(leaf, (ast.Dict, ast.DictComp, ast.List, ast.ListComp, ast.Set, ast.SetComp)) or (
+                        isinstance(leaf, ast.Call) and (call_name_of(leaf) in ("dict", "list", "set", "copy", "deepcopy", "defaultdict", "OrderedDict")))
+                    shared = False
+                    if not fresh:
+                        base = leaf
+                        while isinstance(base, ast.Subscript):
+                            base = base.value
+                        if isinstance(base, ast.Call) and isinstance(base.func, ast.Attribute) and base.func.attr in ("get", "setdefault"):
+                            base = base.func.value
+                        shared = (isinstance(base, ast.Attribute) and isinstance(base.value, ast.Name) and base.value.id in ("cls", "self") and base is not leaf) or (
+                            isinstance(base, ast.Name) and base.id.isupper() and base is not leaf)
+                    n += 1
+                    if fresh:
+                        ctx.ob(f"{helper.name}() hands {fi.name}() a mapping of its own (the caller updates it in place)", True, at=helper, node=r.ast, construct=f"fresh result of {helper.name}")
+                    elif shared:
+                        ctx.ob(f"{helper.name}() hands {fi.name}() a mapping of its own (the caller updates it in place)", False, at=helper, node=r.ast, construct=f"fresh result of {helper.name}",
+                               msg=f"returns `{unparse(leaf)}`, an entry of a shared table, and {fi.name}() then calls `{tgt.id}.update(...)` on it: the first choice group mapped rewrites the table (min_occurs 0, a stale choice id) "
+                                   "for every later particle with the same occurrence indicator - in this and in every later DTD of the process")
+                    else:
+                        ctx.abstain(f"freshness of the result of {helper.name}", at=helper, why=f"returned value `{unparse(leaf)}` is neither a fresh container nor a recognisable table entry")
+    ctx.note("C16.R9 helper results updated in place", n)
